@@ -31,6 +31,11 @@ theorem class_cells_known : classCells.all (fun c => knownCells.contains c.2.2.2
 def knownMutables : List String := ["_PROPERTIES", "_TYPES", "_UNION", "_FORCED_PERMITTED", "_PERMITTED"]
 theorem class_mutables_known : classMutables.all (fun c => knownMutables.contains c.2.2) = true := by decide
 
+/-- the lazily cached fields of the objects that hang off those tables (`XSDAttribute`, `XSDTree`: shared by all
+    threads) are written with their final value in one assignment: no function assigns one of them twice on a path,
+    so no provisional value is ever visible -/
+theorem no_provisional_publication : provisionalPublications = [] := by decide
+
 /-- the pre-repair shape (publish an empty list, then append to it) really is unsafe: see
     `Shapes.publish_then_fill_unsafe` (a 3-step schedule in which the second thread returns an
     empty table) -/
@@ -42,3 +47,4 @@ end C20
 #print axioms C20.attribute_tables_thread_safe
 #print axioms C20.class_cells_known
 #print axioms C20.class_mutables_known
+#print axioms C20.no_provisional_publication
